@@ -130,6 +130,7 @@ type runOutput struct {
 	ContractFiles []string
 	EngineErrs    []string
 	LoadS         float64
+	StructuralN   int
 }
 
 // runUnits loads and verifies all units of a property.
@@ -200,6 +201,13 @@ func runUnits(ps *PropSpec, opts Options, overlay map[string][]byte) *runOutput 
 				continue
 			}
 			results = append(results, V.verifyWithCandidates(fn, fc))
+		}
+		for _, sc := range ps.Structural {
+			n, viol := runStructural(sc, P)
+			out.StructuralN += n
+			for _, sv := range viol {
+				out.EngineErrs = append(out.EngineErrs, "structural: "+sc+": "+sv)
+			}
 		}
 		for _, sv := range V.structuralGlobalStores() {
 			out.EngineErrs = append(out.EngineErrs, "structural: "+sv)
